@@ -404,6 +404,10 @@ func (p *ValueDecl) endInit(cb *CodeBuilder, arity int) *ValueDecl {
 			}
 		} else if typ == nil {
 			var retType = rets[i].Type
+			if retType == nil {
+				src, pos, end := cb.loadExpr(rets[i].Src)
+				cb.panicCodeErrorf(pos, end, "%s (no value) used as value", src)
+			}
 			if retType == types.Typ[types.UntypedNil] {
 				src, pos, end := cb.loadExpr(rets[i].Src)
 				if src == "" {
